@@ -69,6 +69,51 @@ def field_walk_rules(ck, rule, facts, backends):
         ck.bad(rule, "fields-walk-floor/" + "+".join(sorted(backends)), "only %d walks over StructDef.fields found in %s" % (nwalk, sorted(backends)))
 
 
+def trait_vtable_rules(ck, rule, facts, backends):
+    """The foreign-side mirror of a trait's vtable lists EVERY method of the trait, in order: the macro compiles one `run_<m>_callback` slot per trait method
+    whatever backend attributes say (it never looks at them), so a walk over `TraitDef.methods` that builds the mirror has no filter / continue / break --
+    a method disabled for the backend still needs its slot, or every later slot is read at the wrong offset.  Shared by C01 (c) and C07 (kotlin)."""
+    tool = facts.tool
+    nw = 0
+    for f in tool.fn_list:
+        if "hir" not in f or f.get("exp") or f.get("dk") == "Closure":
+            continue
+        p_ = C.norm_path(f["path"])
+        be = p_.split("::")[1] if p_.count("::") >= 2 else ""
+        if be not in backends or not p_.endswith("::gen_trait_def"):
+            continue
+        sub = {id(C.strip(n["recv"])) for n in C.walk(C.fn_body(f)) if n.get("k") == "mcall"}
+        for n in C.walk(C.fn_body(f)):
+            walk, root, loop = None, None, None
+            if n.get("k") == "mcall" and id(n) not in sub:
+                ch, r = [], n
+                while isinstance(r, dict) and r.get("k") == "mcall":
+                    ch.append(r["m"])
+                    r = C.strip(r["recv"])
+                walk, root = list(reversed(ch)), r
+            elif n.get("k") == "for":
+                r = C.strip(n["iter"])
+                ch = []
+                while isinstance(r, dict) and r.get("k") in ("mcall", "addr"):
+                    if r.get("k") == "mcall":
+                        ch.append(r["m"])
+                        r = C.strip(r["recv"])
+                    else:
+                        r = C.strip(r["e"])
+                walk, root, loop = list(reversed(ch)), r, n
+            if not (isinstance(root, dict) and root.get("k") == "field" and root.get("n") == "methods" and "TraitDef" in (root.get("bty") or "")):
+                continue
+            nw += 1
+            bad = [m_ for m_ in walk if m_ in ("filter", "filter_map", "skip", "take", "skip_while", "take_while", "rev", "step_by", "find", "flat_map")]
+            if loop is not None:
+                bad += [x.get("k") for x in C.walk(loop["body"]) if x.get("k") in ("continue", "break")]
+            key = "%s::gen_trait_def/vtable-lists-every-method#%d" % (be, sum(1 for i in ck.instances if i["key"].startswith("%s::gen_trait_def/vtable-lists-every-method" % be)))
+            ck.expect(not bad, rule, key, "all methods, in order", "the %s mirror of a trait's vtable walks `TraitDef.methods` through %s: a trait method disabled for this backend loses its slot while the "
+                      "Rust `<Trait>_VTable` (which ignores backend attributes) keeps it, so every later callback slot sits one pointer earlier than Rust reads it" % (be, bad), C.loc(f, n.get("ln")))
+    if nw < 1:
+        ck.bad(rule, "gen_trait_def/floor/" + "+".join(sorted(backends)), "no walk over TraitDef.methods found in gen_trait_def of %s" % sorted(backends))
+
+
 def run(ck, facts):
     tool, core = facts.tool, facts.core
     adts = facts.all_adts()
@@ -334,6 +379,7 @@ def run(ck, facts):
     ck.expect(oksl, "R2", "kotlin/init.kt/Slice", "data: Pointer; len: FFISizet", "JNA Slice is not {data: Pointer, len: FFISizet}", "tool/templates/kotlin/init.kt.jinja")
 
     field_walk_rules(ck, "R2", facts, {"dart", "kotlin"})
+    trait_vtable_rules(ck, "R2", facts, {"kotlin"})
 
     # ---------------- R3 order
     dg = tool.fn("dart::TyGenContext::gen_method_info")
@@ -417,6 +463,29 @@ def run(ck, facts):
     ok = len(key_calls) >= 1 and len(key_roots) >= 2 and all(k.get("k") == "lit" and k.get("v") is False for k in key_calls) and uses_key
     ck.expect(ok, "R2", "dart::gen_result/cache-key-is-abi-type", "key built from the ffi (cast=false) type names",
               "the `_Result..` helper class is cached under a name built from the Dart-side type (cast=%s): payloads of different width share one record with the first one's @ffi annotation" % [k.get("v") for k in key_calls], C.loc(gr))
+
+    # ---------------- R2 (cont.) Kotlin: a fallible / nullable return is declared as a `Result..` / `Option..` record; only an optional opaque is a bare (nullable) pointer
+    krf = tool.fn("kotlin::TyGenContext::gen_return_type_name_ffi", optional=True)
+    kmt = next((n for n in C.walk(C.fn_body(krf)) if n.get("k") == "match" and (n.get("sadt") or "").endswith("methods::ReturnType")), None) if krf else None
+    if kmt is None:
+        ck.bad("R2", "kotlin::gen_return_type_name_ffi/anchor", "match on ReturnType not found", C.loc(krf) if krf else None)
+    else:
+        kbad, kn = [], 0
+        for v, hits in C.decision_table(kmt, adts, "diplomat_core::hir::methods::ReturnType"):
+            if not hits or v.variant not in ("Fallible", "Nullable"):
+                continue
+            arm = kmt["arms"][hits[0][0]]
+            if C.diverges(arm["b"]):
+                continue
+            kn += 1
+            shown = v.show()
+            lits = [C.macro_fmt_canon(x) or "" for x in C.walk(arm["b"]) if x.get("k") == "macro" and x.get("name") == "format"] + C.str_lits(arm["b"])
+            tail_lits = [l_ for l_ in lits if re.match(r"^(Option|Result|Pointer\?)", l_)]
+            pointer_ok = "Opaque" in shown and v.variant == "Nullable"
+            if not any(l_.startswith(("Option", "Result")) for l_ in tail_lits) and not (pointer_ok and any(l_.startswith("Pointer?") for l_ in tail_lits)):
+                kbad.append(shown)
+        ck.expect(kn >= 4 and not kbad, "R2", "kotlin::gen_return_type_name_ffi/result-record", "%d fallible/nullable shapes -> Option../Result.. records" % kn,
+                  "the JNA return type of %s is not an `Option..` / `Result..` structure: C returns `{union; bool is_ok}` (24 bytes for a slice, by hidden pointer), JNA reads a bare value" % kbad, C.loc(krf))
 
     # ---------------- R2 (cont.) every fallible / nullable return is declared as the result record, never as a scalar
     for fn_sfx, label in (("dart::TyGenContext::gen_return_type_name_ffi", "dart"),):
